@@ -26,7 +26,7 @@ ASSUMPTIONS = [
     "For unmapped records the decoded reference name may be any text that is not the name of a real reference (e.g. '*' or ''), or the read may raise.",
 ]
 REQUIRED_CLASSES = ["odd-sequence-length", "even-sequence-length", "empty-sequence", "long-read-name", "all-cigar-ops", "no-cigar", "missing-qualities",
-                    "unmapped", "tags", "multi-member-gzip", "chunked", "write-filtered", "write-reordered", "reverse-strand"]
+                    "unmapped", "tags", "multi-member-gzip", "chunked", "write-filtered", "write-reordered", "reverse-strand", "stream-ends-in-a-line-feed-byte"]
 BOUNDS = {"quick": "480 files of up to 6 records (names up to 254, sequences up to 40), all admissible chunk sizes for small files",
           "thorough": "4000 files of up to 40 records, sequences up to 300"}
 BUDGET_S = {"quick": 200, "thorough": 1500}
@@ -61,6 +61,8 @@ def classify(case):
             cl.append("reverse-strand")
     if {op for r in recs for op, _ in r["cigar"]} >= set("MIDNSHP=X"):
         cl.append("all-cigar-ops")
+    if recs and bamenc.record_bytes(norm(recs[-1]))[-1:] == b"\n":
+        cl.append("stream-ends-in-a-line-feed-byte")
     if case.get("cuts"):
         cl.append("multi-member-gzip")
     if case.get("ks"):
@@ -234,9 +236,10 @@ def record(draw, n_refs, Lmax):
                            st.permutations(list("MIDNSHP=X")).map(lambda p: [(o, 1 + i) for i, o in enumerate(p)])))
     L = draw(st.one_of(st.integers(0, 6), st.integers(0, Lmax)))
     seq = draw(st.text(alphabet=bamenc.SEQ_CODE, min_size=L, max_size=L))
-    qual = draw(st.one_of(st.none(), st.lists(st.integers(0, 93), min_size=L, max_size=L)))
+    # (quality 10 is the line-feed byte, the last byte of the record when it carries no tags: the reader appends a line feed only if a file does not end in one)
+    qual = draw(st.one_of(st.none(), st.lists(st.one_of(st.integers(0, 93), st.just(10)), min_size=L, max_size=L)))
     ref = draw(st.integers(-1 if True else 0, n_refs - 1)) if n_refs else -1
-    tags = draw(st.sampled_from(["", "", "4e4d4305", "5253 5a 6162 00".replace(" ", "")]))
+    tags = draw(st.sampled_from(["", "", "4e4d4305", "4e4d430a", "5253 5a 6162 00".replace(" ", "")]))
     return {"ref": ref, "pos": draw(st.one_of(st.integers(0, 1000), st.integers(0, 2 ** 29))) if ref >= 0 else -1 + draw(st.integers(0, 1)),
             "name": name, "flag": draw(st.one_of(st.sampled_from([0, 16, 4, 99, 147, 2048]), st.integers(0, 4095))), "mapq": draw(st.integers(0, 255)),
             "cigar": [[o, n] for o, n in cigar], "seq": seq, "qual": qual, "tags": tags}
